@@ -519,6 +519,10 @@ func (w *dnsWorld) newAnswer(up, name int, qtype uint16) *dnsAns {
 		large = 5
 		w.s.Probe("dns.large-answer")
 	}
+	sharedOnly := w.mode == dnsModeC10 && (up*7+name*3+ver)%4 == 3
+	if sharedOnly {
+		w.s.Probe("dns.c10-answer-of-shared-addresses-only")
+	}
 	pad := func(i int) string { return strings.Repeat(string(rune('a'+(a.id+i)%26)), 220) }
 	switch qtype {
 	case dnsmessage.TypeA:
@@ -526,8 +530,15 @@ func (w *dnsWorld) newAnswer(up, name int, qtype uint16) *dnsAns {
 			a.empty = true
 			break
 		}
-		u := dnsUniqueA(a.id)
-		a.ips = append(a.ips, u)
+		// C10: one answer in four consists of shared addresses only, so that the address set
+		// of one scope of a name can be a subset of (or equal to) a sibling scope's
+		if sharedOnly {
+			if shared == 0 {
+				shared = 1 << uint((name+ver)%3)
+			}
+		} else {
+			a.ips = append(a.ips, dnsUniqueA(a.id))
+		}
 		for i, x := range dnsSharedA {
 			if shared&(1<<i) != 0 {
 				a.ips = append(a.ips, x)
@@ -547,8 +558,13 @@ func (w *dnsWorld) newAnswer(up, name int, qtype uint16) *dnsAns {
 			a.empty = true
 			break
 		}
-		u := dnsUniqueAAAA(a.id)
-		a.ips = append(a.ips, u)
+		if sharedOnly {
+			if shared == 0 {
+				shared = 1 << uint((name+ver)%3)
+			}
+		} else {
+			a.ips = append(a.ips, dnsUniqueAAAA(a.id))
+		}
 		for i, x := range dnsSharedAAAA {
 			if shared&(1<<i) != 0 {
 				a.ips = append(a.ips, x)
